@@ -60,15 +60,18 @@ func (ex *Exec) lvalueLocs(env *SpecEnv, e ast.Expr) []modLoc {
 		return ex.lvalueLocs(env, x.X)
 	case *ast.SelectorExpr:
 		base := env.eval(x.X)
-		p, ok := base.V.(*PtrV)
-		if !ok {
-			tool("modifies: base of %s is not a pointer", exprString(e))
-		}
 		t := base.T
 		if pt, ok := under(t).(*types.Pointer); ok {
 			t = pt.Elem()
 		}
 		name := x.Sel.Name
+		if iv, ok := base.V.(IfaceV); ok && strings.HasPrefix(name, "ghost_") {
+			return []modLoc{{class: typeName(t) + ".$" + strings.TrimPrefix(name, "ghost_"), ref: iv.Val}}
+		}
+		p, ok := base.V.(*PtrV)
+		if !ok {
+			tool("modifies: base of %s is not a pointer", exprString(e))
+		}
 		if strings.HasPrefix(name, "ghost_") {
 			return []modLoc{{class: typeName(t) + ".$" + strings.TrimPrefix(name, "ghost_"), ref: ptrTerm(p)}}
 		}
@@ -674,9 +677,11 @@ func (ex *Exec) VerifyFunc(sp *FuncSpec) {
 	fr.Spec = sp
 	fr.EntryFull = st.snapshotFull()
 	env := ex.funcEnv(st, fr)
+	env.assumeLocks = true
 	for _, c := range sp.Requires {
 		st.assume(ex.evalBool(env, c.Expr))
 	}
+	env.assumeLocks = false
 	for _, l := range sp.HoldsAtEntry {
 		_ = l
 	}
